@@ -11,7 +11,7 @@ from gen_create import random_callset, random_map, pop_sizes, random_projection
 
 RULE = ("random diploid call sets (1-10 samples, 0-60 records) x sample maps x optional projection, each rendered as plain VCF, "
         "BGZF VCF in 7 block layouts (64 KiB blocks; one line per block; tiny irregular blocks with empty blocks interleaved; "
-        "no EOF block; an empty first block; a first block of 1 and of 2 bytes), BGZF BCF and raw BCF (noodles writer), supplied by path, on stdin in one write and on stdin as a pipe whose first write carries only 1, 2, 3, 20 or 300 bytes, with --threads in {1,2,3,4,8,16} "
+        "no EOF block; an empty first block; a first block of 1 and of 2 bytes), BGZF BCF and raw BCF (noodles writer), supplied by path, on stdin in one write and on stdin as a pipe whose first write carries only 1, 2, 3, 20 or 300 bytes, with --threads in {1,2,3,4,8,16} (also with the process confined to one and to two CPUs) "
         "(quick: 3 of them per form), each configuration repeated (fresh process = fresh hash seeds): stdout must be "
         "byte-identical across ALL forms and equal exit status, and equal to the proved model's output on the abstract call "
         "set. non-trivial = call set with >= 2 populations or a projection")
@@ -85,6 +85,19 @@ def check(rep, tier, seed):
                     jobs.append((argv0 + ["--threads", str(t)], data))
                     labels.append("%s via trickled-stdin first-write=%d threads=%d" % (name, first, t))
         res += run_cli_trickle(tjobs)
+        # the environment: the same forms with the process confined to ONE cpu, and to two (thread caps derived from the
+        # available parallelism must not change the result, whatever --threads says)
+        allowed = sorted(os.sched_getaffinity(0))
+        ajobs = []
+        for name in ("vcf", "vcf.gz", "vcf.gz-line-per-block", "bcf-hts", "bcf-hts-raw", "bcf"):
+            if name not in forms:
+                continue
+            for cp in ({allowed[0]}, set(allowed[:2])):
+                for t in (1, 2, 16):
+                    ajobs.append((argv0 + ["--threads", str(t)], forms[name], cp))
+                    jobs.append((argv0 + ["--threads", str(t)], forms[name]))
+                    labels.append("%s via stdin threads=%d cpus=%d" % (name, t, len(cp)))
+        res += run_cli_many(ajobs)
         exp = run_model([mc])[0]
         ref = res[0]
         for lab, job, (rc, so, se) in zip(labels, jobs, res):
@@ -93,6 +106,7 @@ def check(rep, tier, seed):
                 rep.fail(kind="property-oracle", cls="forms:" + lab.split()[0].split("-")[0], case="call set %d as %s" % (k, lab), argv=["sfs"] + job[0],
                          stdin_hex=(job[1] or forms[lab.split()[0]]).hex()[:400000],
                          first_write=(int(lab.split("first-write=")[1].split()[0]) if "first-write=" in lab else None),
+                         cpus=(int(lab.split("cpus=")[1].split()[0]) if "cpus=" in lab else None),
                          observed={"rc": rc, "stdout": so.decode(errors="replace")[:300], "stderr": se.decode(errors="replace")[-300:]},
                          expected={"rc": ref[0], "stdout": ref[1].decode(errors="replace")[:300], "reference": labels[0]},
                          detail="the same records supplied in another container / transport / thread count gave a different result")
